@@ -3,6 +3,7 @@ package rules
 import (
 	"fmt"
 	"go/token"
+	"go/types"
 	"sort"
 	"strings"
 
@@ -154,115 +155,208 @@ func R12() Rule {
 		}
 		c.Check(stored && loaded, "R12", "b/status-code-roundtrip", fe.Pos(), "fmtErrorfCode stores its code in httpError.code and httpStatusCodeOf returns that field", "the HTTP code given to fmtErrorfCode is not what httpStatusCodeOf reports")
 
-		// (c) plumbing
-		handler := P.MustFunc(core.PkgGcsemu, "(*GcsEmu).Handler")
-		c.Fn("(*GcsEmu).Handler")
-		fromParse := func(v ssa.Value) bool {
-			k := substKey(v, nil, 0)
-			return strings.Contains(k, "parseConds") && strings.HasSuffix(k, "#0")
-		}
+		// (c) plumbing, as a backward flow rule: the conditions every validateConds call
+		// evaluates come — through handler parameters, the pending upload's Conds field and the
+		// compose source records — from the request (parseConds in Handler, or a source's own
+		// ifGenerationMatch).  Dropping them anywhere on the way (a zero Conditions{}, a field
+		// that is never filled) breaks the chain; moving or splitting handlers does not.
 		n := 0
-		for _, ci := range core.AllCalls(handler) {
-			if ci.Static == nil || !inRepo(P, ci.Static) {
-				continue
-			}
-			for i, a := range ci.Common.Args {
-				if !isConditions(a) {
-					continue
-				}
+		for _, f := range P.SrcFuncs(core.PkgGcsemu) {
+			k := 0
+			for _, call := range callsTo(f, core.PkgGcsemu, "validateConds") {
 				n++
-				c.Check(fromParse(a), "R12", fmt.Sprintf("c/Handler->%s/arg%d", core.FuncName(ci.Static), i), ci.Instr.Pos(), "receives the conditions parsed from the request", "the handler is not given the request's parsed conditions: preconditions of this operation are ignored")
+				k++
+				ok, why := condsFromRequest(P, call.Call.Args[1])
+				c.Check(ok, "R12", fmt.Sprintf("c/%s/validateConds#%d/conditions-come-from-the-request", core.FuncName(f), k), call.Pos(),
+					"the evaluated conditions derive from parseConds / the source's ifGenerationMatch on every path ("+why+")",
+					"the conditions evaluated here do not (on every path) derive from the request: "+why+" — preconditions of this operation are ignored")
 			}
 		}
 		if n < 5 {
-			c.Unknown("R12", "floor/handler-plumbing", token.NoPos, "only %d handlers receive conditions from Handler", n)
+			c.Unknown("R12", "floor/validate-sites", token.NoPos, "only %d validateConds call sites found", n)
 		}
-		paramKey := func(fn *ssa.Function) string {
-			p := condsParamOf(fn)
-			if p == nil {
-				return "<none>"
-			}
-			return substKey(p, nil, 0)
-		}
-		// uploads
-		newObj := P.MustFunc(core.PkgGcsemu, "(*GcsEmu).handleGcsNewObject")
-		fu := P.MustFunc(core.PkgGcsemu, "(*GcsEmu).finishUpload")
-		k := 0
-		for _, ci := range core.AllCalls(newObj) {
-			if ci.Static == fu {
-				k++
-				a := ci.Common.Args[len(ci.Common.Args)-1]
-				c.Check(substKey(a, nil, 0) == paramKey(newObj), "R12", fmt.Sprintf("c/handleGcsNewObject->finishUpload#%d", k), ci.Instr.Pos(), "passes its conditions on", "an upload protocol drops the request's preconditions on the way to finishUpload")
-			}
-		}
-		if k < 2 {
-			c.Unknown("R12", "floor/upload-plumbing", token.NoPos, "expected two finishUpload calls in handleGcsNewObject")
-		}
-		storedConds := false
-		for _, b := range newObj.Blocks {
-			for _, in := range b.Instrs {
-				if st, ok := in.(*ssa.Store); ok {
-					if fa, ok := st.Addr.(*ssa.FieldAddr); ok {
-						if _, f, _ := core.FieldName(fa); f == "Conds" && core.TypeIs(fa.X.Type(), core.PkgGcsemu, "uploadData") {
-							storedConds = substKey(st.Val, nil, 0) == paramKey(newObj)
-						}
-					}
-				}
-			}
-		}
-		c.Check(storedConds, "R12", "c/resumable-initiation-stores-conditions", newObj.Pos(), "the pending upload records the initiating request's conditions", "a resumable upload does not record the conditions of its initiating request")
-		resume := P.MustFunc(core.PkgGcsemu, "(*GcsEmu).handleGcsNewObjectResume")
-		okResume := false
-		for _, ci := range core.AllCalls(resume) {
-			if ci.Static == fu {
-				a := ci.Common.Args[len(ci.Common.Args)-1]
-				ch := fieldChain(a)
-				okResume = len(ch) > 0 && ch[len(ch)-1] == "Conds"
-			}
-		}
-		c.Check(okResume, "R12", "c/resumable-completion-uses-stored-conditions", resume.Pos(), "completion evaluates the conditions recorded at initiation", "a resumable upload is completed without the conditions recorded at initiation")
-		// compose
-		comp := P.MustFunc(core.PkgGcsemu, "(*GcsEmu).handleGcsCompose")
-		dstConds, srcConds := false, false
-		for _, b := range comp.Blocks {
-			for _, in := range b.Instrs {
-				st, ok := in.(*ssa.Store)
-				if !ok {
-					continue
-				}
-				ch := fieldChain(st.Addr)
-				if len(ch) == 0 {
-					continue
-				}
-				last := ch[len(ch)-1]
-				if last == "conds" && isConditions(st.Val) && substKey(st.Val, nil, 0) == paramKey(comp) {
-					dstConds = true
-				}
-				if last == "GenerationMatch" {
-					// value comes from ObjectPreconditions.IfGenerationMatch
-					if strings.Contains(substKey(st.Val, nil, 0), "IfGenerationMatch") || phiHasField(st.Val, "IfGenerationMatch") {
-						srcConds = true
-					}
-				}
-			}
-		}
-		c.Check(dstConds, "R12", "c/compose-destination-conditions", comp.Pos(), "the destination carries the request's conditions", "compose drops the request's preconditions for the destination")
-		c.Check(srcConds, "R12", "c/compose-source-generation-match", comp.Pos(), "each source carries its ifGenerationMatch", "compose drops the per-source ifGenerationMatch")
+		// compose checks each source it reads against that source's conditions
 		fc := P.MustFunc(core.PkgGcsemu, "(*GcsEmu).finishCompose")
 		nv := 0
 		srcChecked := false
-		for _, call := range callsTo(fc, core.PkgGcsemu, "validateConds") {
-			nv++
-			ch := strings.Join(fieldChain(call.Call.Args[1]), ".")
-			obj := core.Resolve(call.Call.Args[0])
-			if ex, ok := obj.(*ssa.Extract); ok {
-				if g, ok := ex.Tuple.(*ssa.Call); ok && isStoreCall(core.Call(g), "Get") && strings.HasSuffix(ch, "conds") {
-					srcChecked = true
+		for _, f := range P.Scope(fc, func(f *ssa.Function) bool { return f == validate }) {
+			for _, call := range callsTo(f, core.PkgGcsemu, "validateConds") {
+				nv++
+				obj := core.Resolve(call.Call.Args[0])
+				if ex, ok := obj.(*ssa.Extract); ok {
+					if g, ok := ex.Tuple.(*ssa.Call); ok && isStoreCall(core.Call(g), "Get") {
+						srcChecked = true
+					}
 				}
 			}
 		}
 		c.Check(srcChecked && nv >= 2, "R12", "c/compose-validates-each-source", fc.Pos(), "every source read is checked against that source's conditions", "compose does not check the per-source generation match")
 	}}
+}
+
+// condsFromRequest decides whether a Conditions value derives, on every path,
+// from the request: the result of parseConds; a struct field of type Conditions
+// all of whose assignments (anywhere in the package) do; or a locally built value
+// whose generation match is a compose source's ifGenerationMatch.
+func condsFromRequest(P *core.Program, v ssa.Value) (bool, string) {
+	seenVal := map[ssa.Value]bool{}
+	seenField := map[string]bool{}
+	var walk func(v ssa.Value, depth int) (bool, string)
+	fieldOK := func(structT types.Type, field string, depth int) (bool, string) {
+		key := structT.String() + "." + field
+		if seenField[key] {
+			return true, "" // being decided higher up
+		}
+		seenField[key] = true
+		nStores := 0
+		for _, f := range P.SrcFuncs(core.PkgGcsemu) {
+			for _, b := range f.Blocks {
+				for _, in := range b.Instrs {
+					st, ok := in.(*ssa.Store)
+					if !ok {
+						continue
+					}
+					fa, ok := st.Addr.(*ssa.FieldAddr)
+					if !ok {
+						continue
+					}
+					_, fn, _ := core.FieldName(fa)
+					if fn != field || core.NamedOf(fa.X.Type()) == nil || core.NamedOf(fa.X.Type()) != core.NamedOf(structT) {
+						continue
+					}
+					nStores++
+					if ok2, why := walk(st.Val, depth+1); !ok2 {
+						return false, fmt.Sprintf("%s.%s is assigned a value that does not: %s", core.NamedOf(structT).Obj().Name(), field, why)
+					}
+				}
+			}
+		}
+		if nStores == 0 {
+			return false, fmt.Sprintf("%s.%s is never assigned", core.NamedOf(structT).Obj().Name(), field)
+		}
+		return true, fmt.Sprintf("via %s.%s", core.NamedOf(structT).Obj().Name(), field)
+	}
+	walk = func(v ssa.Value, depth int) (bool, string) {
+		v = core.Resolve(v)
+		if depth > 14 {
+			return false, "flow too deep to follow"
+		}
+		if seenVal[v] {
+			return true, ""
+		}
+		seenVal[v] = true
+		switch x := v.(type) {
+		case *ssa.Extract:
+			if call, ok := x.Tuple.(*ssa.Call); ok && core.Call(call).IsFunc(core.PkgGcsemu, "parseConds") && x.Index == 0 {
+				return true, "parseConds"
+			}
+		case *ssa.Parameter:
+			fn := x.Parent()
+			refs := P.Refs(fn)
+			if len(refs) == 0 {
+				return false, fmt.Sprintf("parameter %s of %s, which has no callers in the package", x.Name(), core.FuncName(fn))
+			}
+			why := ""
+			for _, r := range refs {
+				t := core.Translate(x, fn, r)
+				if t == nil {
+					return false, fmt.Sprintf("parameter %s of %s is not bound at %s", x.Name(), core.FuncName(fn), P.Pos(r.Instr.Pos()))
+				}
+				ok, w := walk(t, depth+1)
+				if !ok {
+					return false, w
+				}
+				if w != "" {
+					why = w
+				}
+			}
+			return true, why
+		case *ssa.FreeVar:
+			fn := x.Parent()
+			for _, r := range P.Refs(fn) {
+				if t := core.Translate(x, fn, r); t != nil {
+					return walk(t, depth+1)
+				}
+			}
+		case *ssa.Phi:
+			why := ""
+			for _, e := range x.Edges {
+				ok, w := walk(e, depth+1)
+				if !ok {
+					return false, w
+				}
+				if w != "" {
+					why = w
+				}
+			}
+			return true, why
+		case *ssa.Field:
+			if !isConditions(x.X) {
+				_, fn, _ := core.FieldName(x)
+				return fieldOK(x.X.Type(), fn, depth)
+			}
+		case *ssa.UnOp:
+			if x.Op != token.MUL {
+				break
+			}
+			switch a := x.X.(type) {
+			case *ssa.FieldAddr:
+				_, fn, _ := core.FieldName(a)
+				return fieldOK(a.X.Type(), fn, depth)
+			case *ssa.Alloc, *ssa.FreeVar:
+				cell := core.CellOf(a)
+				if cell == nil {
+					break
+				}
+				// a local Conditions variable: whole-value assignments must derive from the request;
+				// a value built field by field must take its generation match from the source's ifGenerationMatch
+				whole, built := 0, false
+				for _, st := range core.StoresTo(cell) {
+					whole++
+					if ok, w := walk(st.Val, depth+1); !ok {
+						return false, w
+					}
+				}
+				for _, f := range core.Family(core.Root(cell.Parent())) {
+					for _, b := range f.Blocks {
+						for _, in := range b.Instrs {
+							st, ok := in.(*ssa.Store)
+							if !ok {
+								continue
+							}
+							fa, ok := st.Addr.(*ssa.FieldAddr)
+							if !ok || core.CellOf(fa.X) != cell {
+								continue
+							}
+							if _, fn, _ := core.FieldName(fa); fn == "GenerationMatch" {
+								if strings.Contains(substKey(st.Val, nil, 0), "IfGenerationMatch") || phiHasField(st.Val, "IfGenerationMatch") {
+									built = true
+								}
+							}
+						}
+					}
+				}
+				if whole > 0 || built {
+					return true, "built from the source's ifGenerationMatch"
+				}
+				return false, "a Conditions value that is never filled from the request"
+			}
+		}
+		return false, fmt.Sprintf("%s at %s", describeValue(v), P.Pos(v.Pos()))
+	}
+	return walk(v, 0)
+}
+
+func describeValue(v ssa.Value) string {
+	switch x := v.(type) {
+	case *ssa.Const:
+		return "a constant / zero Conditions value"
+	case *ssa.Call:
+		return "the result of " + core.Call(x).CalleeName()
+	case *ssa.Alloc:
+		return "a fresh local value"
+	}
+	return fmt.Sprintf("%T", v)
 }
 
 func phiHasField(v ssa.Value, field string) bool {
